@@ -229,6 +229,11 @@ impl<F: Future> Stream for FuturesUnordered<F> {
             match poll {
                 Poll::Ready(Some(x)) => {
                     *rem -= 1;
+                    // start the next poll at the following group, so that one busy group cannot
+                    // starve the others; an emptied group stays under the cursor to be removed
+                    if !groups[*poll_next].is_empty() {
+                        *poll_next += 1;
+                    }
                     return Poll::Ready(Some(x));
                 }
                 Poll::Ready(None) => {
